@@ -14,7 +14,16 @@ COORD_SUFFIX = ["dup", "dst_body", "zero", "rand"]
 
 def near_miss(rng, v):
     """a byte string an application-level normalisation might confuse with v"""
-    c = rng.randrange(7)
+    c = rng.randrange(11)
+    if c == 9:
+        return b"\x00" * rng.choice([1, 1, 2]) + v
+    if c == 10:
+        return v.lstrip(b"\x00") if v.startswith(b"\x00") else b"\x00" + v
+    if c >= 7:
+        # long strings that agree on a prefix of one or two hash blocks / a typical truncation length
+        cut = rng.choice([16, 32, 55, 56, 63, 64, 65, 119, 128, 255, 256])
+        base = (v * (cut // max(1, len(v)) + 2))[:cut] if v else bytes(rng.randrange(256) for _ in range(cut))
+        return base + bytes([rng.randrange(256)]) if c == 7 else base + b"\x00"
     try:
         if c == 0 and any(b >= 0x80 for b in v):
             return v.decode("latin-1").encode("utf-8")
@@ -119,10 +128,9 @@ def _differ(rng, cfg, kinds):
                 # same group, another seed for an element the roles use
                 key = "S" if a["cls"] == "S" else rng.choice(["M", "N"])
                 old = worlds.seeds_of(ps0)[key]
-                while True:
+                v = near_miss(rng, old) if rng.random() < 0.4 else old
+                while v == old:
                     v = gen.gen_bytes(rng, rng.choice(["one", "short", "ascii", "empty", "nul"]))
-                    if v != old:
-                        break
                 ps1[key] = v.hex()
                 done.append("pset:" + key)
             elif c == 1:
